@@ -142,3 +142,46 @@ def same_state(a, b):
 
 def show_state(st):
     return {n: v for n, v in zip(NAMES, st) if v != "-"}
+
+
+def legal_sets():
+    """every constraint set the class can hold (at most one detector, one reference, three sample constraints, three in all)"""
+    import itertools
+    out = [()]
+    for k in (1, 2, 3):
+        for tr in itertools.combinations(NAMES, k):
+            if sum(CAT[n] == "det" for n in tr) <= 1 and sum(CAT[n] == "ref" for n in tr) <= 1:
+                out.append(tr)
+    return out
+
+
+REFUSABLE = ["abc", "", "1,5", [1], {"a": 1}, 1j, b"1", float("nan")]
+
+
+def refused_assignment_sweep(rng, n_sets, values=None):
+    """for legal sets × every name × values of the wrong kind: an assignment that raises must leave the set exactly as it was (in particular on
+    the replacement path, where another constraint would have made room).  -> (cases, raised, [(description, replay)])"""
+    from diffcalc.hkl.constraints import Constraints
+    sets = legal_sets()
+    rng.shuffle(sets)
+    bad, cases, raised = [], 0, 0
+    for tr in sets[:n_sets]:
+        base = {n: (True if n in VOID else round(rng.uniform(-80, 80), 3)) for n in tr}
+        for name in NAMES:
+            wrong = list(values or REFUSABLE) + ([True, False] if name not in VOID else [5.0, 0, "yes"])
+            for val in wrong:
+                try:
+                    c = Constraints(dict(base))
+                except Exception:  # noqa — not a constructible set after all
+                    break
+                before = state_of(c)
+                cases += 1
+                try:
+                    setattr(c, name, val)
+                except Exception as e:  # noqa
+                    raised += 1
+                    after = state_of(c)
+                    if not same_state(before, after):
+                        bad.append((f"{name} = {val!r} on the set {show_state(before)} raised {type(e).__name__} but left {show_state(after)}",
+                                    {"set": base, "name": name, "value": repr(val)}))
+    return cases, raised, bad
